@@ -521,8 +521,9 @@ VSsetname(int32       vkey, /* IN: Vdata key */
 
     vs->marked = TRUE; /* mark vdata as being modified */
 
-    if (curr_len < slen)
-        vs->new_h_sz = TRUE; /* mark vdata header size being changed */
+    if (curr_len != slen)
+        vs->new_h_sz = TRUE; /* mark vdata header size being changed (a shorter header must not
+                                be written over the longer one: its tail would stay behind) */
 
 done:
     return ret_value;
@@ -585,8 +586,9 @@ VSsetclass(int32       vkey, /* IN: vdata key */
 
     vs->marked = TRUE; /* mark vdata as being modified */
 
-    if (curr_len < slen)
-        vs->new_h_sz = TRUE; /* mark vdata header size being changed */
+    if (curr_len != slen)
+        vs->new_h_sz = TRUE; /* mark vdata header size being changed (a shorter header must not
+                                be written over the longer one: its tail would stay behind) */
 
 done:
     return ret_value;
